@@ -20,7 +20,8 @@ import gen
 import lexgen
 import vlib
 
-LAYOUT = [" ", "\n", "\t", "  \n", "\r\n", "// comment ' \" ` \n", "/* block * / ' */", "/**/", " /* a */ // b\n"]
+LAYOUT = [" ", "\n", "\t", "  \n", "\r\n", "// comment ' \" ` \n", "/* block * / ' */", "/**/", " /* a */ // b\n",
+          "/** doc **/", "/***/", "/* x **/", "/****/", "/*/ */", "/* * / ** */", "//\n", "// */ /*\n", "/*\n//\n*/"]
 
 
 def fscan_go(ctx, srcs):
@@ -130,6 +131,12 @@ def run(ctx):
     for b in bases:
         for _ in range(20 if not thorough else 60):
             srcs.append(c09.mutate_bytes(b, rng))
+    pre = fscan_go(ctx, bases)
+    for b, l in zip(bases, pre):
+        for _ in range(3):
+            v = variant(b, toks_of(l), rng, "layout")
+            if v:
+                srcs.append(v)
     go = fscan_go(ctx, srcs)
     mo = fscan_model(ctx, srcs)
     reported = 0
